@@ -636,9 +636,14 @@ def check_C06(chk, R, S):
     finally:
         import shutil
         shutil.rmtree(tmp, ignore_errors=True)
+    import subproc_matrix
     if chk.tier == "thorough":
-        import subproc_matrix
         subproc_matrix.run(chk, scs[:25], R)
+    else:
+        # quick tier: a light version (two hash seeds, one order), lossy scenarios first
+        lossy = [sc for sc in scs if 0.0 < sc["med"][2] < 1.0 and "C" in sc["handlers"]]
+        rest = [sc for sc in scs if sc not in lossy]
+        subproc_matrix.run(chk, (lossy + rest)[:12], R, light=True)
 
 
 def gen_drive_scenario(R, kinds=("settimer", "settimer", "cancel", "send")):
